@@ -1123,7 +1123,13 @@ class C12(Check):
     def evaluate(self, cases):
         from .common import run_impl
         impl_outs = run_impl(self.impl, cases, self.case_timeout, extra_env=self.impl_env)
-        model_outs = run_model([self.model_line(c) for c in cases])
+        lines, index = [], []
+        for i, c in enumerate(cases):
+            ls = parse_model_lines(c) if c.get("op") == "parse" else [self.model_line(c)]
+            index.append((len(lines), len(ls), c.get("op") == "parse" and c.get("kind") == "dataclass"))
+            lines += ls
+        flat = run_model(lines)
+        model_outs = [flat[a:a + n] if multi_line else flat[a] for a, n, multi_line in index]
         return impl_outs, model_outs
 
     # ---- model vs implementation ---------------------------------------------------------------
@@ -1251,6 +1257,8 @@ class C12(Check):
 
     def classify(self, case, io, why):
         if case.get("op") == "parse":
+            if case.get("kind") == "dataclass" and "no_explicit_cast" in why and jkind(case["value"]) in ("list", "tuple"):
+                return "dataclass-list-under-nec"
             return None
         t, v = case["target"], case["value"]
         tb = t.get("cls")
@@ -1371,19 +1379,194 @@ def outcome_name(o) -> str:
 # (rule.py:1896-1899, options.py:151-155, cls.py:598-606) — filled in below
 # ------------------------------------------------------------------------------------------------
 
+ADDITIONS = ("unset", "none", "no", "yes")
+ADD_PY = {"none": None, "no": False, "yes": True}
+
+
+def _opts(case, **extra):
+    from utype import Options
+    kw = dict(extra)
+    if case.get("addition", "unset") != "unset":
+        kw["addition"] = ADD_PY[case["addition"]]
+    return Options(no_data_loss=case.get("ndl", False), no_explicit_cast=case.get("nec", False), **kw)
+
+
+def _dataclass_values():
+    d1, d2 = {"a": 1}, {"a": 2}
+    vals = [[d1], [d1, d2], (d1,), (d1, d2), [], (), d1, [("a", 1)], (("a", 1),), [("a", 1), ("b", 2)], [[d1]], "{\"a\": 3}",
+            ['{"a": 3}'], ['{"a": 3}', '{"a": 4}'], [d1, d1, d1], deque([d1]), 5, [5], [5, 6], None]
+    return [_e(v) for v in vals]
+
+
 def parse_cases(tier, rng):
-    return []
+    out = []
+    for ndl in (False, True):
+        for a in ADDITIONS:
+            out.append({"op": "parse", "kind": "options", "ndl": ndl, "addition": a})
+            for style in ("schema", "function", "dataclass"):
+                out.append({"op": "parse", "kind": "schema", "style": style, "ndl": ndl, "addition": a})
+            for nargs in (0, 1, 2, 3):
+                for nvals in range(0, 6):
+                    for src in ("tuple", "list"):
+                        out.append({"op": "parse", "kind": "tuple", "ndl": ndl, "addition": a, "nargs": nargs, "nvals": nvals, "src": src})
+    for v in _dataclass_values():
+        out.append({"op": "parse", "kind": "dataclass", "value": v})
+    return out
+
+
+def _err(e):
+    from utype.utils import exceptions as exc
+    if isinstance(e, exc.TupleExceedError):
+        return {"perr": "TupleExceedError", "item": getattr(e, "item", None)}
+    if isinstance(e, exc.ExceedError):
+        return {"perr": "ExceedError", "item": getattr(e, "item", None)}
+    if isinstance(e, exc.AbsenceError):
+        return {"perr": "AbsenceError"}
+    if isinstance(e, exc.ParseError):
+        return {"perr": "ParseError"}
+    if isinstance(e, (TypeError, ValueError)):
+        return {"perr": type(e).__name__}
+    return {"escape": type(e).__name__}
 
 
 def impl_parse(case):
-    raise NotImplementedError
+    import utype
+    from utype import Options, Rule, Schema, type_transform
+    kind = case["kind"]
+    if kind == "options":
+        v = _opts(case).addition
+        return {"addition": "none" if v is None else ("no" if v is False else "yes")}
+    if kind == "schema":
+        o = _opts(case)
+        try:
+            if case["style"] == "schema":
+                S = type("S", (Schema,), {"__options__": o, "__annotations__": {"a": int}, "a": 0})
+                r = dict(S(a=1, b=2))
+            elif case["style"] == "dataclass":
+                S = utype.dataclass(type("D", (), {"__annotations__": {"a": int}, "a": 0}), options=o)
+                inst = S(a=1, b=2)
+                r = {k: v for k, v in vars(inst).items() if not k.startswith("_")}
+            else:
+                if case["addition"] == "yes":
+                    return {"skip": "a function without **kwargs cannot declare addition=True"}
+
+                @utype.parse(options=o)
+                def f(a: int = 0):
+                    return {"a": a}
+                r = f(a=1, b=2)
+                if "b" not in r:
+                    r = dict(r)
+        except Exception as e:
+            out = _err(e)
+            out["fate"] = "rejected" if out.get("perr") == "ExceedError" else "error"
+            return out
+        return {"ok": {k: v for k, v in r.items()}, "fate": "kept" if "b" in r else "dropped"}
+    if kind == "tuple":
+        T = Rule.annotate(tuple, *([int] * case["nargs"])) if case["nargs"] else None
+        if T is None:
+            return {"skip": "empty prefix"}
+        value = tuple(range(case["nvals"]))
+        if case["src"] == "list":
+            value = list(value)
+        try:
+            r = type_transform(value, T, options=_opts(case))
+        except Exception as e:
+            return _err(e)
+        return {"ok": len(r)}
+    if kind == "dataclass":
+        from utype.parser.cls import init_dataclass
+        S = type("S", (Schema,), {"__annotations__": {"a": int}, "a": 0})
+        out = {}
+        for key, nec, ndl in FLAG_KEYS:
+            o = Options(no_explicit_cast=nec, no_data_loss=ndl)
+
+            def run(fn):
+                try:
+                    return {"ok": dict(fn())}
+                except Exception as e:
+                    return _err(e)
+            v = dec(case["value"], None)
+            out[key] = run(lambda: type_transform(v, S, options=o))
+            out[key + "_init_v"] = run(lambda: init_dataclass(S, v, context=o.make_context()))
+            if isinstance(v, (list, tuple)) and v:
+                out[key + "_init_head"] = run(lambda: init_dataclass(S, v[0], context=o.make_context()))
+        return out
+    raise ValueError(kind)
+
+
+def parse_model_lines(case):
+    """driver lines for one parse case (the dataclass kind needs one per flag combination)"""
+    if case["kind"] == "dataclass":
+        return [dict(case, nec=nec, ndl=ndl) for _, nec, ndl in FLAG_KEYS]
+    return [case]
 
 
 def compare_parse(case, io, mo):
+    kind = case["kind"]
+    if isinstance(io, dict) and "skip" in io:
+        return None
+    if kind == "options":
+        return None if io.get("addition") == mo.get("addition") else f"Options.addition: impl {io} model {mo}"
+    if kind == "schema":
+        return None if io.get("fate") == mo.get("fate") else f"unknown key: impl {io} model {mo}"
+    if kind == "tuple":
+        ex = mo.get("excess")
+        if ex:
+            if io.get("perr") != "TupleExceedError" or io.get("item") != ex[0]:
+                return f"tuple excess: model reports items {ex}, impl {io}"
+        elif io.get("perr") == "TupleExceedError":
+            return f"tuple excess: model reports nothing, impl {io}"
+        return None
+    if kind == "dataclass":
+        v = case["value"]
+        for (key, nec, ndl), m in zip(FLAG_KEYS, mo):
+            got = io[key]
+            if "perr" in m:
+                if got.get("perr") != "TypeError":
+                    return f"dataclass input {key}: model raises TypeError, impl {got}"
+                continue
+            if "ok" not in m:
+                continue
+            same = canon(m["ok"]) == canon(v)
+            want = io.get(key + "_init_v") if same else io.get(key + "_init_head")
+            if want is None or json.dumps(want, sort_keys=True, default=str) != json.dumps(got, sort_keys=True, default=str):
+                return f"dataclass input {key}: model hands on {'the input' if same else 'the first item'} (init gives {want}), impl {got}"
+        return None
     return None
 
 
 def spec_parse(case, io):
+    kind = case["kind"]
+    if isinstance(io, dict) and "skip" in io:
+        return None
+    ndl, a = case.get("ndl"), case.get("addition")
+    if kind == "options":
+        if ndl and a in ("unset", "none") and io.get("addition") != "no":
+            return f"no_data_loss: Options(no_data_loss=True{'' if a == 'unset' else ', addition=None'}).addition is {io.get('addition')}: unknown keys are not rejected"
+    if kind == "schema":
+        if ndl and a in ("unset", "none") and io.get("fate") != "rejected":
+            return f"no_data_loss: unknown key 'b' was {io.get('fate')} by a {case['style']} with Options(no_data_loss=True)"
+        if not ndl and a != "no" and io.get("fate") == "rejected":
+            return None
+    if kind == "tuple":
+        if ndl and case["nvals"] > case["nargs"] and io.get("perr") != "TupleExceedError":
+            return f"no_data_loss: tuple of {case['nvals']} items for a {case['nargs']}-item prefix was not rejected: {io}"
+        if "ok" in io and not ndl:
+            pass
+        # only restrict: what converts under no_data_loss converts without it
+    if kind == "dataclass":
+        v = case["value"]
+        multi_in = jkind(v) in ("list", "tuple")
+        for key, nec, ndl_ in FLAG_KEYS[1:]:
+            got = io[key]
+            if "ok" not in got:
+                continue
+            if ndl_ and multi_in and len(v["q"]) > 1:
+                return f"no_data_loss ({flag_name(nec, ndl_)}): a {jkind(v)} of {len(v['q'])} items collapsed into a data class"
+            if "ok" not in io["ff"]:
+                return f"mono: data class input converts under {flag_name(nec, ndl_)} but not without flags ({io['ff']})"
+            if io["ff"]["ok"] != got["ok"]:
+                return f"mono: data class built under {flag_name(nec, ndl_)} {got['ok']} differs from the lenient one {io['ff']['ok']}"
     return None
 
 
